@@ -275,7 +275,9 @@ class GaussianBackend(BaseGaussian):
         if modes is None:
             modes = list(range(len(self.get_modes())))
 
-        listmodes = list(concatenate((2 * array(modes), 2 * array(modes) + 1)))
+        # ``modes`` indexes the active modes; deleted modes remain in the internal arrays
+        raw_modes = array(self.get_modes())[modes]
+        listmodes = list(concatenate((2 * raw_modes, 2 * raw_modes + 1)))
         covmat = empty((2 * len(modes), 2 * len(modes)))
         means = r[listmodes]
 
